@@ -138,3 +138,159 @@ def _sul_fields(d0, d1, d2, d3, m0, m1, m2, m3, m4):
     sul = pFile.StorageUnitLabel(seq + b'V1.00' + b'RECORD' + mx + ident)
     return sul.storage_unit_sequence_number == nseq and sul.maximum_record_length == nmx and sul.storage_set_identifier == ident \
         and sul.dlis_version == b'V1.00' and sul.storage_unit_structure == b'RECORD'
+
+
+# ---------------------------------------------------------------------------------------------------- C02: index and random access
+
+from TotalDepth.RP66V1.core import pIndex
+
+
+def _index_and_fetch(recs, i, off, ln, j):
+    """Index the file; optionally fetch record j first (history); then fetch record i (whole if ln is None else the slice).
+    Returns False on any deviation from the reference model."""
+    data, layout = R.encode(recs)
+    exp = R.expected(recs)
+    f = SymFile(data)
+    with pIndex.LogicalRecordIndex(f) as idx:
+        mark.hit()
+        if len(idx) != len(recs):
+            return False
+        for k in range(len(recs)):
+            e = idx[k]
+            if e.position.vr_position != layout[k][0] or e.position.lrsh_position != layout[k][1]:
+                return False
+            if e.description.attributes.is_eflr != exp[k][0] or e.description.lr_type != exp[k][1]:
+                return False
+            tot = 0
+            for vr, sp, sl in layout[k][2]:
+                tot += sl
+            # logical data length held by the index = segment bytes minus headers / checksums / trailing lengths (pad bytes included)
+            want = 0
+            for s in recs[k][2]:
+                want += len(s['payload']) + s['pad']
+            if e.description.ld_length != want:
+                return False
+        if idx.visible_record_positions != [layout[k][0] for k in range(len(recs))]:
+            return False
+        if j >= 0:
+            idx.get_file_logical_data(j)
+        f.reads = []
+        if ln is None:
+            fld = idx.get_file_logical_data(i)
+            want = exp[i][2]
+        else:
+            fld = idx.get_file_logical_data(i, off, ln)
+            want = exp[i][2][off:off + ln]
+        if fld.logical_data.bytes != want:
+            return False
+        if fld.lr_type != exp[i][1] or fld.lr_is_eflr != exp[i][0]:
+            return False
+        # bytes touched: only inside the visible records that hold record i
+        spans = []
+        for vr, sp, sl in layout[i][2]:
+            vlen = (data[vr] << 8) | data[vr + 1]
+            spans.append((vr, vr + vlen))
+        for a, b in f.reads:
+            ok = False
+            for lo, hi in spans:
+                if lo <= a and b <= hi:
+                    ok = True
+            if not ok:
+                return False
+    return True
+
+
+def _crosses_segment_boundary(recs, i, off, ln):
+    """The known-finding class of C02: a non-negative length whose range [off, off+ln) spans more than one segment's data."""
+    if ln is None or ln < 0:
+        return False
+    pos = 0
+    for s in recs[i][2]:
+        n = len(s['payload']) + (s['pad'] if s['encrypted'] else 0)
+        if pos <= off < pos + n:
+            return off + ln > pos + n and s is not recs[i][2][-1]
+        pos += n
+    return False
+
+
+def index_two_segments(split: int, pad0: int, cs0: bool, enc0: bool, pad1: int, tl1: bool, vr1: bool) -> bool:
+    """
+    pre: 1 <= split <= 2
+    pre: 0 <= pad0 <= 2 and 0 <= pad1 <= 2
+    pre: PART < 0 or (split - 1) * 4 + (2 if vr1 else 0) + (1 if enc0 else 0) == PART
+    post: _
+    """
+    recs = build(2, split, [(pad0, cs0, False, enc0, True), (pad1, False, tl1, False, vr1)], [7, 9])
+    return _index_and_fetch(recs, 0, 0, None, -1)
+
+
+def fetch_after_fetch(split: int, pad0: int, pad1: int, cs1: bool, vr1: bool, i: int, j: int) -> bool:
+    """
+    pre: 1 <= split <= 2
+    pre: 0 <= pad0 <= 1 and 0 <= pad1 <= 1
+    pre: 0 <= i <= 1 and -1 <= j <= 1
+    pre: i < (1 if split == 2 else 2) and j < (1 if split == 2 else 2)
+    pre: PART < 0 or (split - 1) * 4 + (2 if vr1 else 0) + (1 if cs1 else 0) == PART
+    post: _
+    """
+    recs = build(2, split, [(pad0, False, True, False, True), (pad1, cs1, False, False, vr1)], [7, 9])
+    return _index_and_fetch(recs, i, 0, None, j)
+
+
+def fetch_slice_two_segments_q(split: int, pad0: int, pad1: int, vr1: bool, i: int, off: int, ln: int) -> bool:
+    """
+    pre: 1 <= split <= 2
+    pre: 0 <= pad0 <= 1 and 0 <= pad1 <= 1
+    pre: 0 <= i <= 1 and i < (1 if split == 2 else 2)
+    pre: 0 <= off <= 11 and ln in (-1, 0, 1, 2, 3, 11, 12, 13)
+    pre: PART < 0 or (split - 1) * 8 + (4 if vr1 else 0) + pad0 * 2 + pad1 == PART
+    post: _
+    """
+    return _fetch_slice(split, pad0, pad1, vr1, i, off, ln)
+
+
+def fetch_slice_two_segments(split: int, pad0: int, pad1: int, vr1: bool, i: int, off: int, ln: int) -> bool:
+    """
+    pre: 1 <= split <= 2
+    pre: 0 <= pad0 <= 1 and 0 <= pad1 <= 1
+    pre: 0 <= i <= 1 and i < (1 if split == 2 else 2)
+    pre: 0 <= off <= 24 and -1 <= ln <= 24
+    pre: PART < 0 or (split - 1) * 8 + (4 if vr1 else 0) + pad0 * 2 + pad1 == PART
+    post: _
+    """
+    return _fetch_slice(split, pad0, pad1, vr1, i, off, ln)
+
+
+class _Pos:
+    def __init__(self, vr, lrsh):
+        self.vr_position, self.lrsh_position = vr, lrsh
+
+
+def _fetch_slice(split, pad0, pad1, vr1, i, off, ln):
+    recs = build(2, split, [(pad0, False, False, False, True), (pad1, True, False, False, vr1)], [7, 9])
+    import os
+    if 'get_file_logical_data_range_spans_segments' in os.environ.get('VERIF_EXCLUDE', '') and _crosses_segment_boundary(recs, i, off, ln):
+        return True
+    exp = R.expected(recs)
+    data, layout = R.encode(recs)
+    f = SymFile(data)
+    # the index entries (positions) are the subject of index_entries; here the reader is driven with the reference positions
+    fr = pFile.FileRead(f)
+    fr._enter()
+    f.reads = []
+    got = fr.get_file_logical_data(_Pos(layout[i][0], layout[i][1]), off, ln).logical_data.bytes
+    mark.hit()
+    want = exp[i][2][off:] if ln < 0 else exp[i][2][off:off + ln]
+    if got != want:
+        return False
+    spans = []
+    for vr, sp, sl in layout[i][2]:
+        spans.append((vr, vr + ((data[vr] << 8) | data[vr + 1])))
+    for a, b in f.reads:
+        ok = False
+        for lo, hi in spans:
+            if lo <= a and b <= hi:
+                ok = True
+        if not ok:
+            return False
+    return True
